@@ -1,5 +1,7 @@
 package isobmff
 
+import "github.com/pkg/errors"
+
 // pitmID is a "pitm" box.
 //
 // Primary Item Reference pitm allows setting one image as the primary item.
@@ -9,6 +11,9 @@ func readPitm(b *box) (id itemID, err error) {
 	buf, err := b.Peek(b.remain)
 	if err != nil {
 		return -1, err
+	}
+	if len(buf) < 6 {
+		return -1, errors.Wrap(ErrBufLength, "readPitm")
 	}
 	b.readFlagsFromBuf(buf)
 	id = itemID(bmffEndian.Uint16(buf[4:]))
